@@ -68,6 +68,11 @@ pub const EXTRA: &[&str] = &[
     "from t | take 9223372036854775807",
     "from t | group a (sort b | take 4294967296)",
     "from t | select {x = a + 4294967296, y = 9223372036854775807}",
+    // joined sub-pipelines without an alias: the outer pipeline names the inner table
+    "from t | join (from u | derive {d = d + 1}) (==a) | select {t.b, u.d}",
+    "from t | join side:left (from u | derive {d = -d}) (==a) | filter u.d > 1",
+    "from t | join (from u | sort d | take 3) (==a) | derive {x = u.d + t.b}",
+    "from t | join (from u | derive {d2 = d + 1}) (==a) | select {t.a, u.d, u.d2}",
     // a joined sub-pipeline that exposes the name `a` twice (recorded finding, see C16)
     "let q = (from t | select {a, b})\nfrom q | join u (==a) | join r=(from u | join l=q (u.d == l.b)) true | select {q.a, r.b}",
     "let q = (from t | select {a, b})\nfrom t | join r=(from u | join l=q (u.d == l.b)) (t.a == r.d) | select {t.a, r.d, r.b}",
